@@ -199,10 +199,14 @@ def run(
             shutil.rmtree(work, ignore_errors=True)
 
 
+TLAPS_STDLIB = '/opt/veriftools/tlapm/lib/tlapm/stdlib'   # TLAPS.tla, for the proof modules
+
+
 def sany(module_path: str) -> tuple[bool, str]:
+    lib = SPECS + (os.pathsep + TLAPS_STDLIB if os.path.isdir(TLAPS_STDLIB) else '')
     cmd = [
         'java',
-        f'-DTLA-Library={SPECS}',
+        f'-DTLA-Library={lib}',
         '-cp',
         f'{JAR}{os.pathsep}{DEPS}',
         'tla2sany.SANY',
